@@ -23,9 +23,12 @@ pub enum ModelChoice {
 
 #[derive(Clone, Debug, PartialEq, Eq)]
 pub enum CoreChoice {
+    /// deletion-based minimal core, assumptions tried first to last
     Minimal,
     Full,
     Padded,
+    /// deletion-based minimal core, assumptions tried last to first (another legal minimal core)
+    MinimalRev,
 }
 
 #[derive(Clone, Debug)]
@@ -434,7 +437,8 @@ pub fn unsat_core(
     plain.model = ModelChoice::Min;
     plain.model_cap = 0;
     let mut keep: Vec<bool> = vec![true; n];
-    for i in 0..n {
+    let order: Vec<usize> = if cfg.core == CoreChoice::MinimalRev { (0..n).rev().collect() } else { (0..n).collect() };
+    for i in order {
         keep[i] = false;
         let mut fs: Vec<Rc<Term>> = assertions.to_vec();
         for (j, (_, t)) in assumptions.iter().enumerate() {
